@@ -262,6 +262,9 @@ class PostprocessField(Contract):
 
     target = f"{CB}.postprocess_field"
     params = dict(self=backend(), check_obj=Series(), check_output=T.Lazy(lambda n: None))
+    # output: numpy bool (every entry True / False) or the nullable "boolean" extension dtype, whose entries may be <NA>: what a
+    # comparison of an extension-dtype column (Int64, Float64, string) gives for a missing cell, and what a user function may return
+    split = {"output": ["bool", "nullable_boolean"]}
 
     def setup(self, I):
         PL.install(I)
@@ -270,7 +273,7 @@ class PostprocessField(Contract):
     def make_args(self):
         a = {"self": backend().fresh("self"), "check_obj": SeriesVal.fresh("check_obj", "real")}
         # the output of a check function on `check_obj`: a boolean series over the same rows
-        out = SeriesVal.fresh("check_output", "bool", nullable=False, space=a["check_obj"].space)
+        out = SeriesVal.fresh("check_output", "bool", nullable=self.fixed.get("output", "bool") == "nullable_boolean", space=a["check_obj"].space)
         a["check_output"] = out.derive(sel=a["check_obj"]._sel)
         a["check_output"].dtype_ = bool
         return a
@@ -282,10 +285,13 @@ class PostprocessField(Contract):
         nfc = fld0(fld0(self_, "check"), "n_failure_cases")
         out = {"is_check_result": isinstance(result, Obj) and result.cls is CheckResult}
         passed = result.attrs["check_passed"]
-        out["verdict_is_all_of_output"] = Iff(passed, check_output.all())
+        j = z3.Int(cur().fresh_name("j"))
+        # an entry that is not True - False or missing - is not a pass (under ignore_na the missing cells never reach the check)
+        every_entry_true = SBool(z3.ForAll([j], z3.Implies(check_output.sel(j), z3.And(z3.Not(check_output.null(j)), core.as_z3_bool(check_output.at(j))))))
+        out["verdict_is_all_of_output"] = Iff(passed, every_entry_true)
         fc = result.attrs["failure_cases"]
         i = z3.Int(cur().fresh_name("row"))
-        failing = z3.And(check_obj.sel(i), z3.Not(core.as_z3_bool(check_output.at(i))))
+        failing = z3.And(check_obj.sel(i), z3.Or(check_output.null(i), z3.Not(core.as_z3_bool(check_output.at(i)))))
         if fc is None:
             out["no_failure_cases_only_when_passed"] = Iff(passed, True)
         else:
